@@ -613,15 +613,16 @@ Fixpoint partition0 (s : list Z) : list Z * list Z :=
   | c :: r => if c =? 0 then ([], r) else let '(a, b) := partition0 r in (c :: a, b)
   end.
 
-(* the tail (optional group: one non-digit, then any characters; end) of VERSION_NUMBER_REGEX on what follows the third number (its first character, if
-   any, is no digit): `.` does not match a newline and `$` also matches before a final newline *)
+(* the tail of VERSION_NUMBER_REGEX (an optional group: one non-digit, then any characters; then the end)
+   on what follows the third number (its first character, if any, is no digit): the non-digit may be a
+   newline, `.` does not match a newline and `$` also matches before a final newline *)
 Definition match_labels (rest : list Z) : option (list Z) :=
   match rest with
   | [] => Some []
-  | _ =>
-    if zmem 10 rest then
-      match rev rest with
-      | 10 :: body => if zmem 10 body then None else Some (rev body)
+  | c :: t =>
+    if zmem 10 t then
+      match rev t with
+      | 10 :: body => if zmem 10 body then None else Some (c :: rev body)
       | _ => None
       end
     else Some rest
@@ -667,6 +668,11 @@ Definition decode_sver (r : reply) : result core_info :=
       | None => OtherError                                       (* AssertionError: malformed version *)
       end
   else OtherError.                                               (* outside the model: non-ASCII payload *)
+
+(* MachineController.get_system_info as a fresh controller runs it: the first memory read asks for
+   scp_data_length, i.e. issues sver to (255, 255, 0) and parses the answer *)
+Definition controller_system_info (sv : reply) (rd : reader) (info : chip -> option reply) : result sysinfo :=
+  bind (decode_sver sv) (fun _ => system_info rd info).
 
 (* ------------------------------------------------------------------------------------------------ *)
 (* canonical flat forms, used by the correspondence run to compare with the implementation's output   *)
